@@ -8,6 +8,12 @@ import (
 	"github.com/cronokirby/saferith"
 )
 
+// (Copy of harness/e1/numctdiv/zz_verif_sfmodel.go for package paillier, with three additions that
+// never change a value: concrete bounds lb <= v <= ub and "known unit" marks on the Nat records, which
+// let the model leave out redundant masks / reductions / coprimality tests and decide comparisons
+// that the bounds fix, and a bit-wise select in CondAssign. ModMul and Mod go through verifMRed /
+// verifMMulMod of zz_verif_sfmodel_ext.go. Validated natively by zz_verif_sfmodel_test.go.)
+//
 // A value-level model of github.com/cronokirby/saferith v0.33.0 (Nat, Int, Modulus), installed as
 // CONTRACTS (engine feature "replacements") for the saferith methods listed in
 // verifSaferithReplacements. saferith is limb loops over assembly kernels (addVV, mulWW, ...; the
